@@ -134,6 +134,16 @@ def _block(stmts):
                 r = _stmt(st)
                 stmts[i:i + 2] = r if isinstance(r, list) else [r]
                 continue
+        # C21: a default overridden under a condition: `x = A` / `if c: x = B` (A a plain name or constant) is `x = B if c else A`
+        if x and isinstance(st, ast.Assign) and _simple_load(st.value) and isinstance(nxt, ast.If) and not nxt.orelse and len(nxt.body) == 1 \
+                and _single_name_assign(nxt.body[0]) == x and isinstance(nxt.body[0], ast.Assign) \
+                and x not in _names_loaded(nxt.test) and x not in _names_loaded(nxt.body[0].value):
+            new = ast.Assign(targets=[ast.Name(id=x, ctx=ast.Store())], value=ast.IfExp(test=nxt.test, body=nxt.body[0].value, orelse=st.value))
+            ast.copy_location(new, nxt)
+            ast.fix_missing_locations(new)
+            r = _stmt(new)
+            stmts[i:i + 2] = r if isinstance(r, list) else [r]
+            continue
         # C19: a refusal that is also what follows: `if a: [if b: X]; Y` / `X` (X and Y leave) is `if a and not b: Y` / `X`
         if isinstance(st, ast.If) and not st.orelse and len(st.body) >= 2 and isinstance(st.body[0], ast.If) and not st.body[0].orelse \
                 and _leaves(st.body[0].body) and _leaves(st.body[1:]):
@@ -373,6 +383,17 @@ def _stmt(st):
             return []
         new = ast.If(test=ast.Compare(left=st.test.left, ops=[ast.IsNot()], comparators=st.test.comparators), body=st.orelse, orelse=[])
         ast.copy_location(new, st)
+        ast.fix_missing_locations(new)
+        return _stmt(new)
+    if isinstance(st, ast.If) and st.orelse and len(st.body) == 1 and isinstance(st.body[0], ast.If) and not st.body[0].orelse \
+            and _leaves(st.orelse) and [ast.dump(b_) for b_ in st.body[0].body] == [ast.dump(b_) for b_ in st.orelse]:
+        # C22: one refusal on two branches: `if a: [if b: X] else: X` (X leaves) is `if not a or b: X`
+        na = _nnf(ast.copy_location(ast.UnaryOp(op=ast.Not(), operand=st.test), st.test))
+        vals = (list(na.values) if isinstance(na, ast.BoolOp) and isinstance(na.op, ast.Or) else [na]) + \
+               (list(st.body[0].test.values) if isinstance(st.body[0].test, ast.BoolOp) and isinstance(st.body[0].test.op, ast.Or) else [st.body[0].test])
+        new = ast.If(test=ast.BoolOp(op=ast.Or(), values=vals), body=st.orelse, orelse=[])
+        ast.copy_location(new, st)
+        ast.copy_location(new.test, st.test)
         ast.fix_missing_locations(new)
         return _stmt(new)
     if isinstance(st, ast.If) and not st.orelse and len(st.body) == 1 and isinstance(st.body[0], ast.If) and not st.body[0].orelse:
@@ -986,8 +1007,41 @@ def _const_sequences(tree):
     return out
 
 
+def _auto_number(fmt, nargs):
+    """'{0}..{1}' with the fields numbered 0..n-1 in order (each once, no other fields) -> '{}..{}'; None otherwise"""
+    import string
+    try:
+        parts = list(string.Formatter().parse(fmt))
+    except ValueError:
+        return None
+    k = 0
+    out = []
+    for lit, field, spec, conv in parts:
+        out.append(lit.replace('{', '{{').replace('}', '}}'))
+        if field is None:
+            continue
+        if field != str(k) or (spec and ('{' in spec)):
+            return None
+        out.append('{' + ('!' + conv if conv else '') + (':' + spec if spec else '') + '}')
+        k += 1
+    if k == 0 or k != nargs:
+        return None
+    return ''.join(out)
+
+
 class _FoldConst(ast.NodeTransformer):
-    """'_' + 'x' -> '_x';  getattr(o, 'x') -> o.x;  setattr(o, 'x', v) as a statement -> o.x = v"""
+    """'_' + 'x' -> '_x';  getattr(o, 'x') -> o.x;  setattr(o, 'x', v) as a statement -> o.x = v;
+    '{0}{1}'.format(a, b) -> '{}{}'.format(a, b);  [f(k) for k in (c1, c2)] -> [f(c1), f(c2)]"""
+    def visit_ListComp(self, n):
+        self.generic_visit(n)
+        if len(n.generators) == 1:
+            g = n.generators[0]
+            if not g.ifs and not g.is_async and isinstance(g.target, ast.Name) and isinstance(g.iter, (ast.Tuple, ast.List)) and g.iter.elts \
+                    and len(g.iter.elts) <= 8 and all(isinstance(e, ast.Constant) for e in g.iter.elts):
+                elts = [_Subst({g.target.id: e}).visit(copy.deepcopy(n.elt)) for e in g.iter.elts]
+                return ast.copy_location(ast.List(elts=elts, ctx=ast.Load()), n)
+        return n
+
     def visit_BinOp(self, n):
         self.generic_visit(n)
         if isinstance(n.op, ast.Add) and isinstance(n.left, ast.Constant) and isinstance(n.right, ast.Constant) \
@@ -1004,6 +1058,12 @@ class _FoldConst(ast.NodeTransformer):
 
     def visit_Call(self, n):
         self.generic_visit(n)
+        if isinstance(n.func, ast.Attribute) and n.func.attr == 'format' and isinstance(n.func.value, ast.Constant) \
+                and isinstance(n.func.value.value, str) and not n.keywords and not any(isinstance(a, ast.Starred) for a in n.args):
+            f2 = _auto_number(n.func.value.value, len(n.args))
+            if f2 is not None and f2 != n.func.value.value:
+                n.func.value = ast.copy_location(ast.Constant(value=f2), n.func.value)
+            return n
         if isinstance(n.func, ast.Name) and n.func.id == 'getattr' and len(n.args) == 2 and not n.keywords \
                 and isinstance(n.args[1], ast.Constant) and isinstance(n.args[1].value, str) and n.args[1].value.isidentifier():
             return ast.copy_location(ast.Attribute(value=n.args[0], attr=n.args[1].value, ctx=ast.Load()), n)
